@@ -133,6 +133,40 @@ Section Reader.
       | Ok vol => Ok (hdr_pos + act_size, vol)
       end.
 
+  (** the part of [open_common] after the disk-set bookkeeping: dump header,
+      architecture, geometry, where the bitmaps and the page data are *)
+  Definition oc_finish (fidx bs used_device : N) (a : probe_acc) (hdr_pos : N) : res probe_acc :=
+    let sh := rd fidx hdr_pos SH_SIZE in
+    if negb (get32 false sh 40 =? bs) then Err ERR_CORRUPT else
+    let arch :=
+      match pa_ptr a with
+      | Some p => Ok p                       (* isset_arch_name: x86_64 or ia32 *)
+      | None => setup_arch fidx (hdr_pos + bs) (get32 false sh 80)
+      end in
+    match arch with
+    | Err e => Err e
+    | Ok ptr =>
+        let max_pfn := if get32 false sh 8 <? 1 then get32 false sh 60 else get64 false sh 88 in
+        let mem_off := hdr_pos + bs * (1 + get32 false sh 48) in
+        let bmp_pos := mem_off + bs * get32 false sh 52 in
+        let data_pos := bmp_pos + bs * get32 false sh 56 in
+        Ok {| pa_block_size := pa_block_size a; pa_ids := pa_ids a; pa_vol := pa_vol a;
+              pa_seen := pa_seen a;
+              pa_ext := set_nth (pa_ext a) 0
+                          {| ex_pos := data_pos; ex_len := (used_device + 2^64 - data_pos) mod 2^64;
+                             ex_fidx := fidx |};
+              pa_ptr := Some ptr; pa_max_pfn := max_pfn; pa_bmp_pos := bmp_pos |}
+    end.
+
+  (** [process_vol_id] for the disk whose table index is [k] *)
+  Definition process_vol_id (a : probe_acc) (k : nat) (vol_id : bytes) : res (list (option bytes)) :=
+    if nth 0 (pa_seen a) false then
+      match nth k (pa_vol a) None with
+      | Some v => if bytes_eqb vol_id v then Ok (pa_vol a) else Err ERR_CORRUPT
+      | None => if bytes_eqb vol_id (zeros 16) then Ok (pa_vol a) else Err ERR_CORRUPT
+      end
+    else Ok (set_nth (pa_vol a) k (Some vol_id)).
+
   (** [open_common] for file [fidx]; [smh] is the media header if any *)
   Definition open_common (nfiles fidx : N) (a : probe_acc) (smh : option bytes) (sph : bytes) (pos : N)
     : res probe_acc :=
@@ -157,45 +191,13 @@ Section Reader.
                          pa_bmp_pos := pa_bmp_pos a |}
                  else a in
         let set_disk_set := match smh with Some _ => 0 | None => get32 false sph 152 end in
-        (* the part of the function after the disk-set bookkeeping *)
-        let finish (a : probe_acc) (hdr_pos : N) : res probe_acc :=
-          let sh := rd fidx hdr_pos SH_SIZE in
-          if negb (get32 false sh 40 =? bs) then Err ERR_CORRUPT else
-          let arch :=
-            match pa_ptr a with
-            | Some p => Ok p                       (* isset_arch_name: x86_64 or ia32 *)
-            | None => setup_arch fidx (hdr_pos + bs) (get32 false sh 80)
-            end in
-          match arch with
-          | Err e => Err e
-          | Ok ptr =>
-              let max_pfn := if get32 false sh 8 <? 1 then get32 false sh 60 else get64 false sh 88 in
-              let mem_off := hdr_pos + bs * (1 + get32 false sh 48) in
-              let bmp_pos := mem_off + bs * get32 false sh 52 in
-              let data_pos := bmp_pos + bs * get32 false sh 56 in
-              Ok {| pa_block_size := pa_block_size a; pa_ids := pa_ids a; pa_vol := pa_vol a;
-                    pa_seen := pa_seen a;
-                    pa_ext := set_nth (pa_ext a) 0
-                                {| ex_pos := data_pos; ex_len := (used_device + 2^64 - data_pos) mod 2^64;
-                                   ex_fidx := fidx |};
-                    pa_ptr := Some ptr; pa_max_pfn := max_pfn; pa_bmp_pos := bmp_pos |}
-          end in
         if set_disk_set =? 0 then
-          if 1 <? nfiles then Err ERR_NOTIMPL else finish a hdr_pos
+          if 1 <? nfiles then Err ERR_NOTIMPL else oc_finish fidx bs used_device a hdr_pos
         else if nfiles <? set_disk_set then Err ERR_INVALID
         else
           let k := N.to_nat (set_disk_set - 1) in
           if nth k (pa_seen a) false then Err ERR_INVALID else
-          let vol_id := sub sph 120 16 in
-          (* process_vol_id *)
-          let vol :=
-            if nth 0 (pa_seen a) false then
-              match nth k (pa_vol a) None with
-              | Some v => if bytes_eqb vol_id v then Ok (pa_vol a) else Err ERR_CORRUPT
-              | None => if bytes_eqb vol_id (zeros 16) then Ok (pa_vol a) else Err ERR_CORRUPT
-              end
-            else Ok (set_nth (pa_vol a) k (Some vol_id)) in
-          match vol with
+          match process_vol_id a k (sub sph 120 16) with
           | Err e => Err e
           | Ok vol =>
               if 1 <? set_disk_set then
@@ -213,7 +215,8 @@ Section Reader.
                 match init_disk_set fidx hdr_pos (pa_block_size a) nfiles a with
                 | Err e => Err e
                 | Ok (hdr_pos, vol) =>
-                    finish {| pa_block_size := pa_block_size a; pa_ids := pa_ids a; pa_vol := vol;
+                    oc_finish fidx bs used_device
+                           {| pa_block_size := pa_block_size a; pa_ids := pa_ids a; pa_vol := vol;
                               pa_seen := set_nth (pa_seen a) 0 true; pa_ext := pa_ext a;
                               pa_ptr := pa_ptr a; pa_max_pfn := pa_max_pfn a;
                               pa_bmp_pos := pa_bmp_pos a |} hdr_pos
